@@ -94,6 +94,7 @@ const (
 	kStore // a = key, b = value ("" = delete)
 	kRemove
 	kCode // who, a = code name
+	kFailedTx
 	kFinalize
 	kRollback
 	kEnter
@@ -120,6 +121,7 @@ func buildMenu() []opDef {
 		{name: "block(del S.k1)", kind: kStore, who: "S", a: "k1", b: ""},
 		{name: "block(S.k2:=x)", kind: kStore, who: "S", a: "k2", b: "x"},
 		{name: "block(remove S)", kind: kRemove, who: "S"},
+		{name: "block(S.k1 write+revert)", kind: kFailedTx, who: "S", a: "k1"},
 		{name: "block(A->B)", kind: kTransfer},
 		{name: "block(S.code:=c1)", kind: kCode, who: "S", a: "c1"},
 		{name: "block(S.code:=c2)", kind: kCode, who: "S", a: "c2"},
@@ -139,7 +141,9 @@ var coreOps = []string{
 	"finalize", "rollback", "enterBuffering", "exitBuffering",
 }
 
-func isBlock(k int) bool { return k == kTransfer || k == kStore || k == kRemove || k == kCode }
+func isBlock(k int) bool {
+	return k == kTransfer || k == kStore || k == kRemove || k == kCode || k == kFailedTx
+}
 
 // ---------------------------------------------------------------- reference model
 
@@ -437,6 +441,26 @@ func (w *world) applyBlock(op opDef) error {
 		return w.adb.SaveAccount(s)
 	case kRemove:
 		return w.adb.RemoveAccount(cp(addrs[op.who]))
+	case kFailedTx:
+		// a transaction that writes storage and then fails: the sc/tx processors revert to the
+		// journal length taken before it (the trie nodes it touched are re-created with their
+		// previous hashes, so they are obsolete and new in the same commit)
+		snap := w.adb.JournalLen()
+		s, err := w.load(op.who)
+		if err != nil {
+			return err
+		}
+		v := vals["y"]
+		if ra := w.head().ref[op.who]; ra != nil && ra.Store[op.a] == "y" {
+			v = vals["x"]
+		}
+		if err = s.DataTrieTracker().SaveKeyValue(cp(keys[op.a]), cp(v)); err != nil {
+			return err
+		}
+		if err = w.adb.SaveAccount(s); err != nil {
+			return err
+		}
+		return w.adb.RevertToSnapshot(snap)
 	}
 	return nil
 }
